@@ -641,6 +641,9 @@ def run(ctx):
                                                 % (KINDS[kind][1], KINDS[kind][2], A, S, list(data), P)})
         ctx.cov['stages']['apply_oracle_evaluations'] = n_or
         misaligned_triage(ctx)
+        # generic, model-free boundary stage over EVERY relocation class of EVERY architecture (shared with C10)
+        from props import c11_bounds
+        c11_bounds.reloc_boundary_stage(ctx)
         dist = {}
         for r in recs:
             d = dist.setdefault(r[0], {'ok': 0, 'diag': 0, 'internal': 0})
